@@ -42,6 +42,8 @@ impl GC {
             .position(|a| std::ptr::eq(a.as_ptr(), o.as_ptr()))
         {
             self.objects.swap_remove(pos);
+            #[cfg(feature = "verif")]
+            crate::verif::gc_event(crate::verif::GcPhase::Untrace, &[&[o]], &self.objects);
 
             if o.tag() == Type::Array {
                 // Safety: We've already checked the type
@@ -59,10 +61,14 @@ impl GC {
     /// Sweeps all objects
     /// This is automatically called once the Garbage Collector is dropped
     pub fn destroy(&mut self) {
+        #[cfg(feature = "verif")]
+        crate::verif::gc_event(crate::verif::GcPhase::DestroyBegin, &[], &self.objects);
         // Nothing is reachable anymore, so clear all marks before sweeping
         self.mark_bitmap.clear();
         self.mark_bitmap.resize(self.objects.len(), false);
         self.sweep();
+        #[cfg(feature = "verif")]
+        crate::verif::gc_event(crate::verif::GcPhase::DestroyEnd, &[], &self.objects);
     }
 
     /// Runs a full mark & sweep cycle
@@ -72,6 +78,8 @@ impl GC {
         if self.objects.is_empty() {
             return;
         }
+        #[cfg(feature = "verif")]
+        crate::verif::gc_event(crate::verif::GcPhase::RunBegin, roots, &self.objects);
 
         // Sort objects by address so mark() can look up the index of an object,
         // and give every object an (unmarked) bit in the bitmap
@@ -88,6 +96,8 @@ impl GC {
 
         // Sweep all unreachable objects
         self.sweep();
+        #[cfg(feature = "verif")]
+        crate::verif::gc_event(crate::verif::GcPhase::RunEnd, roots, &self.objects);
     }
 
     /// Sweep all unmarked objects
@@ -120,6 +130,8 @@ impl GC {
             Err(_) => return,
         };
         debug_assert!(index < self.mark_bitmap.len());
+        #[cfg(feature = "verif")]
+        crate::verif::probe_mark(index, self.mark_bitmap.len());
 
         if o.tag() == Type::Array {
             // Safety: we know the size of mark_bitmap.
